@@ -533,4 +533,5 @@ def run(ctx, rep):
     # input_context cell of each Context constructor is a copy of self.input_context (shared with C12)
     from rules import c12 as _c12
     common.share(_c12, ctx, rep, {"C12-FRAME"}, key_suffixes=[".input_context"], floors={"C12-FRAME": 5})
+    common.share(_c12, ctx, rep, {"C12-CTOR-CENSUS"})   # input_context is one of the fields no derived context may reset
     common.clone_faithful(rep, lib)
